@@ -4,7 +4,12 @@ Shape B (deviation-bounded product): every subset of 1-8 reference species of a 
 over the five descriptors H, C, O, N, S x {tabulated / consistent experimental data} x
 {equal 298.15 K, equal 300 K, mixed} reference temperatures x {elements, another descriptor
 dictionary}.  Shape A (explicit-state BFS): histories of append / extend / pop / refit on a real
-References object, compared with the fit built from scratch.
+References object, compared with the fit built from scratch.  Strengthening (see notes/C10.md): the route
+by which the temperature reaches the species is a deviation dimension (direct T, per-species '<name>_kwargs',
+per-species overriding a direct one, other species' kwargs present, integer-typed numbers); call-level clauses
+(repeat, caller's data left alone, in-place edits, verbose breakdown); pairs of References objects alive at
+once (new / deepcopy / to_dict-from_dict, edited after creation); histories whose reference species carry
+the References object being refitted.
 
 Nothing of pmutt.empirical.references is used by the oracle: the composition matrix, its rank
 and the residuals are formed here from the case description; offsets are *measured* through the
@@ -16,9 +21,14 @@ import numpy as np
 
 ID = 'C10'
 RULE = ('all subsets of 1-8 reference species of a 14-species menu (5 descriptors), crossed with '
-        'experimental-data mode, reference-temperature mode and descriptor dictionary up to the stated '
+        'experimental-data mode, reference-temperature mode, descriptor dictionary and the route by which the '
+        'temperature reaches the species (direct, per-species kwargs, per-species overriding direct, other '
+        "species' kwargs present, integer-typed) up to the stated "
         'deviation level; plus BFS over append/extend/pop/refit histories of References, de-duplicated '
-        'on (reference list, list last fitted).  A case is non-trivial when its composition matrix is '
+        'on (reference list, list last fitted), with reference species that do / do not carry the References '
+        'object themselves; plus all pairs (References A of 1-3 pool species, second object made new / by '
+        'deepcopy / by to_dict-from_dict, edited by one append or pop and refitted).  A case is non-trivial '
+        'when its composition matrix is '
         'not square full rank, or a deviation is applied, or the history contains an append and a refit')
 ASSUMPTIONS = ['reference species and DFT-side models come from a fixed 14-species menu; experimental '
                'enthalpies from a fixed table or constructed from hidden per-descriptor offsets',
@@ -65,7 +75,8 @@ TEMPS = [200.0, 298.15, 1000.0]
 EXP_MODES = ['table', 'consistent']
 TREF_MODES = ['equal', 'all300', 'mixed']
 DESC_MODES = ['elements', 'groups']
-DEFAULT = dict(exp='table', tref='equal', desc='elements')
+ROUTES = ['direct', 'species', 'override', 'other', 'int']
+DEFAULT = dict(exp='table', tref='equal', desc='elements', route='direct')
 
 QUICK_SUB = [0, 1, 2, 3, 4, 5, 9, 10, 13]      # 9-species sub-menu used for 5-8 references in the quick tier
 HIST_POOL = {'quick': [0, 2, 1, 4, 5], 'thorough': [0, 2, 1, 4, 5, 9]}
@@ -77,26 +88,45 @@ PLANNED_TAGS = ['rank:square-full', 'rank:over-fullcol', 'rank:deficient', 'rank
                 'desc:elements', 'desc:groups', 'resid:zero', 'resid:nonzero',
                 'target:absent-descriptor', 'target:fractional', 'target:reference-itself',
                 'target:sum-of-references', 'offset-given:no-fit', 'hist:append', 'hist:extend', 'hist:pop',
-                'hist:refit', 'hist:stale', 'hist:init-offset-given', 'hist:tref-equal', 'hist:tref-byid']
+                'hist:refit', 'hist:stale', 'hist:init-offset-given', 'hist:tref-equal', 'hist:tref-byid',
+                'hist:attached', 'route:direct', 'route:species', 'route:override', 'route:other', 'route:int',
+                'pair:new', 'pair:deepcopy', 'pair:dict', 'call:repeat', 'call:edited-in-place']
 
 
 def bounds(tier):
     return dict(menu=NAMES, descriptors=ELEMS, n_references='1-8',
                 subsets=('all of size 1-4 of the 14-menu + all of size 5-8 of a 9-species sub-menu'
                          if tier == 'quick' else 'all of size 1-8 of the 14-menu (12910)'),
-                deviation=('full product exp x T_ref x descriptor for <= 2 references, one deviation for 3-4, '
-                           'default + consistent for 5-8' if tier == 'quick' else
-                           'full product for <= 3 references, one deviation for 4-5, default + consistent for 6-8'),
-                exp_modes=EXP_MODES, tref_modes=TREF_MODES, descriptor_modes=DESC_MODES,
+                deviation=('exp x T_ref x descriptor x route for 1 reference; exp x T_ref x descriptor (direct) + '
+                           'T_ref x descriptor x other routes for 2; one deviation (routes included) for 3; one '
+                           'deviation of exp/T_ref/descriptor for 4; default + consistent for 5-8'
+                           if tier == 'quick' else
+                           'exp x T_ref x descriptor x route for <= 2 references; exp x T_ref x descriptor (direct) '
+                           '+ T_ref x descriptor x other routes for 3; one deviation (routes included) for 4-5; '
+                           'default + consistent for 6-8'),
+                exp_modes=EXP_MODES, tref_modes=TREF_MODES, descriptor_modes=DESC_MODES, routes=ROUTES,
+                pair_makes=PAIR_MAKES, history_reference_species_carry_references=[False, True],
                 temperatures=TEMPS, history_pool=[NAMES[i] for i in HIST_POOL[tier]],
                 history_depth=HIST_DEPTH[tier])
 
 
 # ------------------------------------------------------------------ enumeration
 def _configs(level):
-    """level 'full' | 'one' | 'two' (default + consistent) | 'zero'."""
-    if level == 'full':
-        return [dict(exp=e, tref=t, desc=d) for e in EXP_MODES for t in TREF_MODES for d in DESC_MODES]
+    """Deviation levels.  'fullr': exp x tref x desc x route; 'full+r': exp x tref x desc with the direct route
+    plus tref x desc (exp alternating) with every other route; 'one+r': one deviation, routes included;
+    'one': one deviation of exp/tref/desc; 'two': default + consistent; 'zero'."""
+    base = [dict(DEFAULT, exp=e, tref=t, desc=d) for e in EXP_MODES for t in TREF_MODES for d in DESC_MODES]
+    if level == 'fullr':
+        return [dict(c, route=r) for c in base for r in ROUTES]
+    if level == 'full+r':
+        out = list(base)
+        n = 0
+        for r in ROUTES[1:]:
+            for t in TREF_MODES:
+                for d in DESC_MODES:
+                    out.append(dict(DEFAULT, exp=EXP_MODES[n % 2], tref=t, desc=d, route=r))
+                    n += 1
+        return out
     out = [dict(DEFAULT)]
     if level == 'zero':
         return out
@@ -104,33 +134,58 @@ def _configs(level):
     if level == 'two':
         return out
     out += [dict(DEFAULT, tref='all300'), dict(DEFAULT, tref='mixed'), dict(DEFAULT, desc='groups')]
+    if level == 'one+r':
+        out += [dict(DEFAULT, route=r) for r in ROUTES[1:]]
     return out
+
+
+LEVELS = {'quick': {1: 'fullr', 2: 'full+r', 3: 'one+r', 4: 'one'},
+          'thorough': {1: 'fullr', 2: 'fullr', 3: 'full+r', 4: 'one+r', 5: 'one+r'}}
 
 
 def _fit_cases(tier):
     n = len(MENU)
     for k in range(1, 9):
-        if tier == 'quick':
-            pool = range(n) if k <= 4 else QUICK_SUB
-            level = 'full' if k <= 2 else ('one' if k <= 4 else 'two')
-        else:
-            pool = range(n)
-            level = 'full' if k <= 3 else ('one' if k <= 5 else 'two')
+        pool = QUICK_SUB if (tier == 'quick' and k > 4) else range(n)
+        level = LEVELS[tier].get(k, 'two')
         for sub in itertools.combinations(pool, k):
             for cfg in _configs(level):
                 yield dict(kind='fit', refs=list(sub), **cfg)
 
 
+PAIR_MAKES = ['new', 'deepcopy', 'dict']
+N_PAIR_SHARDS = 6
+
+
+def _pair_cases(tier):
+    """Two References objects alive at once: A fitted to `a`; B made new / as a deep copy of A / through
+    to_dict-from_dict of A, then edited (append one more reference or pop the last) and refitted."""
+    pool = HIST_POOL[tier]
+    for k in (1, 2, 3):
+        for a in itertools.permutations(pool, k) if k == 2 else itertools.combinations(pool, k):
+            edits = [['append', x] for x in pool if x not in a]
+            if k > 1:
+                edits.append(['pop'])
+            for make in PAIR_MAKES:
+                for edit in edits:
+                    yield dict(kind='pair', a=list(a), make=make, edit=edit)
+
+
 def shards(tier):
     out = [dict(kind='fit', part=i, nparts=N_FIT_SHARDS) for i in range(N_FIT_SHARDS)]
     out.append(dict(kind='offset'))
+    out += [dict(kind='pair', part=i, nparts=N_PAIR_SHARDS) for i in range(N_PAIR_SHARDS)]
     pool = HIST_POOL[tier]
-    for plen in (1, 2, 3):
-        for given in (False, True):
-            for rot in range(3):
-                order = pool[rot:] + pool[:rot]
-                out.append(dict(kind='hist', init=order[:plen], pool=pool, given=given,
-                                tref='equal' if (rot + plen) % 2 == 0 else 'byid', depth=HIST_DEPTH[tier]))
+    for attach in (False, True):
+        for plen in (1, 2, 3):
+            for given in (False, True):
+                for rot in range(3):
+                    order = pool[rot:] + pool[:rot]
+                    sh = dict(kind='hist', init=order[:plen], pool=pool, given=given,
+                              tref='equal' if (rot + plen) % 2 == 0 else 'byid', depth=HIST_DEPTH[tier])
+                    if attach:
+                        sh['attach'] = True
+                    out.append(sh)
     return out
 
 
@@ -184,12 +239,12 @@ def _exp_HoRT(i, T_ref, exp):
     return dft - sum(HIDDEN[e] * n for e, n in MENU[i][1].items())
 
 
-def _reference(i, T_ref, exp, desc):
+def _reference(i, T_ref, exp, desc, route='direct'):
     from pmutt.empirical.references import Reference
     from pmutt.statmech import StatMech
     name, comp = MENU[i][0], MENU[i][1]
     model = StatMech(name=name, elements=dict(comp) if desc == 'elements' else None, **_model(i))
-    ref = Reference(name=name, elements=dict(comp) if desc == 'elements' else None, T_ref=T_ref,
+    ref = Reference(name=name, elements=dict(comp) if desc == 'elements' else None, T_ref=_num(T_ref, route),
                     HoRT_ref=_exp_HoRT(i, T_ref, exp), model=model)
     if desc != 'elements':
         ref.groups = _desc_dict(comp, desc)
@@ -200,7 +255,7 @@ def _build_refs(ids, cfg, trefs=None):
     from pmutt.empirical.references import References
     desc = cfg['desc']
     trefs = trefs or [_tref_of(p, cfg['tref']) for p in range(len(ids))]
-    lst = [_reference(i, t, cfg['exp'], desc) for i, t in zip(ids, trefs)]
+    lst = [_reference(i, t, cfg['exp'], desc, cfg.get('route', 'direct')) for i, t in zip(ids, trefs)]
     return References(references=lst, descriptor=desc)
 
 
@@ -223,8 +278,38 @@ def _rank_class(A):
     return 'deficient', r
 
 
-def _delta(sp_w, sp_0, getter, T):
-    return getattr(sp_w, getter)(T=T) - getattr(sp_0, getter)(T=T)
+def _num(T, route, np_int=False):
+    """Integer-typed temperature on the 'int' route whenever the value is an integer."""
+    if route == 'int' and float(T).is_integer():
+        return np.int64(T) if np_int else int(T)
+    return T
+
+
+def _kw(name, T, route, np_int=False):
+    """Keyword arguments that tell the species called `name` its temperature through `route`."""
+    wrong = 1.37 * float(T) + 11.0
+    if route in ('direct', 'int'):
+        return dict(T=_num(T, route, np_int))
+    if route == 'species':                      # per-species dictionary only
+        return {'%s_kwargs' % name: dict(T=T)}
+    if route == 'override':                     # per-species dictionary overrides the general condition
+        return {'T': wrong, '%s_kwargs' % name: dict(T=T)}
+    if route == 'other':                        # other species' dictionaries are none of this species' business
+        return {'T': T, '%sO_kwargs' % name: dict(T=wrong), 'x%s_kwargs' % name: dict(T=wrong)}
+    raise ValueError(route)
+
+
+def _temps(route):
+    return [200.0, 300.0, 1000.0] if route == 'int' else TEMPS
+
+
+def _get(sp, getter, T, route, np_int=False, **extra):
+    return getattr(sp, getter)(**dict(_kw(sp.name, T, route, np_int), **extra))
+
+
+def _delta(sp_w, sp_0, getter, T, route='direct'):
+    np_int = getter == 'get_GoRT'
+    return _get(sp_w, getter, T, route, np_int) - _get(sp_0, getter, T, route, np_int)
 
 
 # ------------------------------------------------------------------ oracles on one References object
@@ -232,6 +317,7 @@ def check_refs(refs, ids, trefs, cfg, ctx, sig, case, full=True, fitted_ids=None
     """All clauses of C10 on one (real) References object whose offsets were fitted to the menu
     species `fitted_ids` (default: ids) at temperatures `trefs`."""
     desc, exp = cfg['desc'], cfg['exp']
+    route = cfg.get('route', 'direct')
     fitted = ids if fitted_ids is None else fitted_ids
     cols, A = _matrix(fitted)
     rclass, rank = _rank_class(A)
@@ -243,8 +329,8 @@ def check_refs(refs, ids, trefs, cfg, ctx, sig, case, full=True, fitted_ids=None
     obs, expv, dft = [], [], []
     for i, t in zip(fitted, trefs):
         sp = _species(MENU[i][0], MENU[i][1], desc, refs, _model(i))
-        obs.append(sp.get_HoRT(T=t))
-        dft.append(sp.get_HoRT(T=t, use_references=False))
+        obs.append(_get(sp, 'get_HoRT', t, route))
+        dft.append(_get(sp, 'get_HoRT', t, route, use_references=False))
         expv.append(_exp_HoRT(i, t, exp))
         ctx.evals(2)
     ctx.tag('target:reference-itself')
@@ -271,7 +357,7 @@ def check_refs(refs, ids, trefs, cfg, ctx, sig, case, full=True, fitted_ids=None
     def dH(comp, T, getter='get_HoRT'):
         spw = _species('t', comp, desc, refs, cheap)
         ctx.evals(2)
-        return _delta(spw, sp0, getter, T)
+        return _delta(spw, sp0, getter, T, route)
 
     unit = {e: dH({e: 1}, T_fit) for e in ELEMS}
     unit['Xx'] = dH({'Xx': 1}, T_fit)
@@ -289,7 +375,7 @@ def check_refs(refs, ids, trefs, cfg, ctx, sig, case, full=True, fitted_ids=None
     ctx.tag('target:sum-of-references')
     ctx.tag('target:fractional')
     ctx.tag('target:absent-descriptor')
-    temps = TEMPS if full else TEMPS[1:2]
+    temps = _temps(route) if full else _temps(route)[1:2]
     for tname, comp in targets:
         s = dict(sig, target=tname)
         lin = sum(v * unit[e] for e, v in comp.items())
@@ -323,45 +409,129 @@ def check_refs(refs, ids, trefs, cfg, ctx, sig, case, full=True, fitted_ids=None
     comp = MENU[i][1]
     spw = _species(MENU[i][0], comp, desc, refs, _model(i))
     spn = _species(MENU[i][0], comp, desc, None, _model(i))
+
+    def g_(sp, getter, T, **extra):
+        return _get(sp, getter, T, route, **extra)
+
+    def u_(sp, getter, units, T, **extra):
+        # getters with units multiply by their own argument T: give it directly as well
+        kw = dict(_kw(sp.name, T, route), T=_num(T, route))
+        return getattr(sp, getter)(units=units, **dict(kw, **extra))
+
     for T in (TEMPS[0], TEMPS[2]):
         s = dict(sig, target='ref-first')
-        w = [spw.get_SoR(T=T), spw.get_CpoR(T=T), spw.get_CvoR(T=T)]
-        n = [spn.get_SoR(T=T), spn.get_CpoR(T=T), spn.get_CvoR(T=T)]
+        w = [g_(spw, 'get_SoR', T), g_(spw, 'get_CpoR', T), g_(spw, 'get_CvoR', T)]
+        n = [g_(spn, 'get_SoR', T), g_(spn, 'get_CpoR', T), g_(spn, 'get_CvoR', T)]
         ok &= ctx.close('references contribute nothing to S, Cp, Cv', w, n, s, case, rtol=1e-13)
-        off = [spw.get_HoRT(T=T, use_references=False), spw.get_GoRT(T=T, use_references=False),
-               spw.get_SoR(T=T, use_references=False), spw.get_CpoR(T=T, use_references=False),
-               spw.get_CvoR(T=T, use_references=False),
-               spw.get_H(units='kJ/mol', T=T, use_references=False),
-               spw.get_G(units='eV', T=T, use_references=False)]
-        non = [spn.get_HoRT(T=T), spn.get_GoRT(T=T), spn.get_SoR(T=T), spn.get_CpoR(T=T), spn.get_CvoR(T=T),
-               spn.get_H(units='kJ/mol', T=T), spn.get_G(units='eV', T=T)]
+        off = [g_(spw, 'get_HoRT', T, use_references=False), g_(spw, 'get_GoRT', T, use_references=False),
+               g_(spw, 'get_SoR', T, use_references=False), g_(spw, 'get_CpoR', T, use_references=False),
+               g_(spw, 'get_CvoR', T, use_references=False),
+               u_(spw, 'get_H', 'kJ/mol', T, use_references=False),
+               u_(spw, 'get_G', 'eV', T, use_references=False)]
+        non = [g_(spn, 'get_HoRT', T), g_(spn, 'get_GoRT', T), g_(spn, 'get_SoR', T), g_(spn, 'get_CpoR', T),
+               g_(spn, 'get_CvoR', T), u_(spn, 'get_H', 'kJ/mol', T), u_(spn, 'get_G', 'eV', T)]
         ok &= ctx.close('use_references=False is identical to the species without references', off, non, s,
                         case, rtol=0.0, atol=0.0)
-        d = spw.get_HoRT(T=T) - spn.get_HoRT(T=T)
-        dHu = spw.get_H(units='kJ/mol', T=T) - spn.get_H(units='kJ/mol', T=T)
-        dGu = spw.get_G(units='eV', T=T) - spn.get_G(units='eV', T=T)
+        d = g_(spw, 'get_HoRT', T) - g_(spn, 'get_HoRT', T)
+        dHu = u_(spw, 'get_H', 'kJ/mol', T) - u_(spn, 'get_H', 'kJ/mol', T)
+        dGu = u_(spw, 'get_G', 'eV', T) - u_(spn, 'get_G', 'eV', T)
         ok &= ctx.close('H and G with units carry the same adjustment (x R T)', [dHu, dGu],
                         [d * c.R('kJ/mol/K') * T, d * c.R('eV/K') * T], s, case, rtol=1e-9,
-                        scale=[abs(spn.get_H(units='kJ/mol', T=T)) + 1.0, abs(spn.get_G(units='eV', T=T)) + 1.0])
-        ctx.evals(30)
+                        scale=[abs(u_(spn, 'get_H', 'kJ/mol', T)) + 1.0, abs(u_(spn, 'get_G', 'eV', T)) + 1.0])
+        # an option passed explicitly at its default is the option omitted
+        ok &= ctx.close('use_references=True given explicitly is the default',
+                        [g_(spw, 'get_HoRT', T, use_references=True), g_(spw, 'get_GoRT', T, use_references=True),
+                         u_(spw, 'get_H', 'kJ/mol', T, use_references=True)],
+                        [g_(spw, 'get_HoRT', T), g_(spw, 'get_GoRT', T), u_(spw, 'get_H', 'kJ/mol', T)], s, case,
+                        rtol=0.0, atol=0.0)
+        ctx.evals(38)
+    ok &= _check_calls(refs, cfg, unit, T_fit, ctx, sig, case)
     return bool(ok)
+
+
+def _check_calls(refs, cfg, unit, T_fit, ctx, sig, case):
+    """Call-level clauses on one referenced species: the same call again, the caller's data left alone, mutable
+    arguments edited in place between two calls, the per-mode breakdown."""
+    import copy
+    desc, route = cfg['desc'], cfg.get('route', 'direct')
+    cheap = _cheap_model()
+    comp = {'H': 2, 'O': 1, 'C': 1}
+    spw = _species('t', comp, desc, refs, cheap)
+    sp0 = _species('t', comp, desc, None, cheap)
+    held = getattr(spw, desc)                       # the dictionary the species holds
+    T1, T2 = 500.0, 800.0
+    kw = _kw('t', T1, route)
+    snap = copy.deepcopy((kw, held, dict(refs.offset), refs.T_ref, len(refs.references)))
+    s = dict(sig, target='calls')
+    lin = sum(v * unit[e] for e, v in comp.items())
+    mag = sum(abs(v * unit[e]) for e, v in comp.items()) + 1.0
+    first = [spw.get_HoRT(**kw), spw.get_GoRT(**kw), spw.get_SoR(**kw)]
+    again = [spw.get_HoRT(**kw), spw.get_GoRT(**kw), spw.get_SoR(**kw)]
+    ok = ctx.close('the same call repeated gives the same answer', again, first, s, case, rtol=0.0, atol=0.0)
+    now = (kw, held, dict(refs.offset), refs.T_ref, len(refs.references))
+    ok &= ctx.true("evaluation leaves the caller's keyword dictionaries, the species' composition and the fitted "
+                   'offsets as they were', _same(now, snap), s, case, observed=repr(now)[:300],
+                   expected=repr(snap)[:300])
+    base = [sp0.get_HoRT(**kw), sp0.get_GoRT(**kw)]
+    # the per-mode breakdown adds up to the total and is a fresh array
+    vb = spw.get_HoRT(verbose=True, **kw)
+    vb_off = spw.get_HoRT(verbose=True, use_references=False, **kw)
+    ok &= ctx.close('per-mode breakdown (verbose) adds up to the total, with and without references',
+                    [float(np.sum(vb)), float(np.sum(vb_off))], [first[0], base[0]], s, case, rtol=1e-12,
+                    scale=mag + abs(base[0]) + 1.0)
+    vb[...] = 7.0
+    ok &= ctx.close('editing a returned breakdown does not change the next call',
+                    [spw.get_HoRT(**kw), float(np.sum(spw.get_HoRT(verbose=True, **kw)))], [first[0]] * 2, s, case,
+                    rtol=1e-12, scale=mag + abs(base[0]) + 1.0)
+    # the keyword dictionary edited in place: answer for the new temperature (same energy)
+    inner = kw.get('t_kwargs', kw)
+    inner['T'] = T2
+    if route == 'override':
+        kw['T'] = 1.37 * T2 + 11.0
+    elif route == 'other':
+        kw['T'] = T2
+    d2 = spw.get_HoRT(**kw) - sp0.get_HoRT(**kw)
+    ok &= ctx.close('keyword dictionary edited in place between two calls: answer for its new content',
+                    d2 * T2 / T_fit, lin, s, case, rtol=1e-9, scale=mag * T2 / T_fit + 0.6)
+    # the composition edited in place: answer for the new composition
+    key = [k for k in held if k.endswith('H')][0]
+    held[key] += 1
+    held['Xx'] = 3
+    d3 = spw.get_GoRT(**kw) - sp0.get_GoRT(**kw)
+    ok &= ctx.close('composition edited in place between two calls: answer for its new content',
+                    d3 * T2 / T_fit, lin + unit['H'] + 3 * unit['Xx'], s, case, rtol=1e-9,
+                    scale=(mag + abs(unit['H'])) * T2 / T_fit + 0.6)
+    ctx.evals(16)
+    ctx.tag('call:repeat')
+    ctx.tag('call:edited-in-place')
+    return bool(ok)
+
+
+def _same(a, b):
+    """Structural equality that also compares the types of numbers (an int must stay an int)."""
+    if isinstance(a, dict) and isinstance(b, dict):
+        return list(a) == list(b) and all(_same(a[k], b[k]) for k in a)
+    if isinstance(a, (list, tuple)) and isinstance(b, (list, tuple)):
+        return len(a) == len(b) and all(_same(x, y) for x, y in zip(a, b))
+    return type(a) is type(b) and bool(a == b)
 
 
 # ------------------------------------------------------------------ fit cases
 def _fit_sig(case):
     _, A = _matrix(case['refs'])
-    return dict(kind='fit', rank=_rank_class(A)[0], exp=case['exp'], tref=case['tref'], desc=case['desc'])
+    return dict(kind='fit', rank=_rank_class(A)[0], exp=case['exp'], tref=case['tref'], desc=case['desc'],
+                route=case.get('route', 'direct'))
 
 
 def _run_fit(case, ctx):
     ids = case['refs']
-    cfg = dict(exp=case['exp'], tref=case['tref'], desc=case['desc'])
+    cfg = dict(exp=case['exp'], tref=case['tref'], desc=case['desc'], route=case.get('route', 'direct'))
     sig = _fit_sig(case)
     trefs = [_tref_of(p, cfg['tref']) for p in range(len(ids))]
     refs = _build_refs(ids, cfg, trefs)
     ctx.trace()
     ctx.trans()
-    for k in ('exp', 'tref', 'desc'):
+    for k in ('exp', 'tref', 'desc', 'route'):
         ctx.tag('%s:%s' % (k, cfg[k]))
     ctx.tag('rank:' + sig['rank'])
     ctx.close('fitted T_ref is the mean reference temperature', float(refs.T_ref), float(np.mean(trefs)), sig, case,
@@ -369,12 +539,20 @@ def _run_fit(case, ctx):
     check_refs(refs, ids, trefs, cfg, ctx, sig, case, full=True)
 
 
+def _offset_sig(case):
+    return dict(kind='offset-given', desc=case['desc'], with_refs=bool(case.get('with_refs')),
+                route=case.get('route', 'direct'))
+
+
 def _run_offset(case, ctx):
     """construct-with-offset: no fit; every unconditional clause applies, and the offsets given
     are the ones applied."""
+    import copy
     from pmutt.empirical.references import References
     desc = case['desc']
+    route = case.get('route', 'direct')
     offs = {(_desc_dict({e: 1}, desc).popitem()[0]): v for e, v in case['offset'].items()}
+    offs0 = copy.deepcopy(offs)
     with_refs = case.get('with_refs')
     lst = None
     if with_refs:
@@ -382,35 +560,118 @@ def _run_offset(case, ctx):
     refs = References(offset=offs, references=lst, descriptor=desc, T_ref=case['T_ref'])
     ctx.trace()
     ctx.tag('offset-given:no-fit')
-    sig = dict(kind='offset-given', desc=desc, with_refs=bool(with_refs))
+    ctx.tag('route:' + route)
+    sig = _offset_sig(case)
     cheap = _cheap_model()
     sp0 = _species('t', {'H': 1}, desc, None, cheap)
     T_ref = case['T_ref']
-    for comp in ({'H': 2, 'O': 1}, {'C': 1, 'H': 4}, {'H': 1.5, 'N': 0.5, 'Xx': 2}, {'S': 1, 'O': 2}):
+    for comp in ({'H': 2, 'O': 1}, {'C': 1, 'H': 4}, {'H': 1.5, 'N': 0.5, 'Xx': 2}, {'S': 1, 'O': 2}, {}):
         spw = _species('t', comp, desc, refs, cheap)
         lin = -sum(case['offset'].get(e, 0.0) * v for e, v in comp.items())
-        for T in TEMPS:
-            d = _delta(spw, sp0, 'get_HoRT', T)
-            g = _delta(spw, sp0, 'get_GoRT', T)
+        for T in _temps(route):
+            d = _delta(spw, sp0, 'get_HoRT', T, route)
+            g = _delta(spw, sp0, 'get_GoRT', T, route)
             ctx.evals(4)
             ctx.close('given offsets applied: dHoRT = -offset.n T_ref/T', [d, g], [lin * T_ref / T] * 2, sig, case,
                       rtol=1e-9, scale=abs(lin) * T_ref / T + 600.0)
-        w = [spw.get_SoR(T=500.0), spw.get_CpoR(T=500.0), spw.get_CvoR(T=500.0),
-             spw.get_HoRT(T=500.0, use_references=False), spw.get_GoRT(T=500.0, use_references=False)]
-        n = [sp0.get_SoR(T=500.0), sp0.get_CpoR(T=500.0), sp0.get_CvoR(T=500.0), sp0.get_HoRT(T=500.0),
-             sp0.get_GoRT(T=500.0)]
+        w = [_get(spw, 'get_SoR', 500.0, route), _get(spw, 'get_CpoR', 500.0, route),
+             _get(spw, 'get_CvoR', 500.0, route), _get(spw, 'get_HoRT', 500.0, route, use_references=False),
+             _get(spw, 'get_GoRT', 500.0, route, use_references=False)]
+        n = [_get(sp0, 'get_SoR', 500.0, route), _get(sp0, 'get_CpoR', 500.0, route),
+             _get(sp0, 'get_CvoR', 500.0, route), _get(sp0, 'get_HoRT', 500.0, route),
+             _get(sp0, 'get_GoRT', 500.0, route)]
         ctx.close('use_references=False is identical to the species without references', w, n, sig, case,
                   rtol=0.0, atol=0.0)
-    ctx.state(('offset', desc, case['T_ref'], bool(with_refs), sorted(case['offset'].items())))
-    ctx.nontrivial(('offset', desc, case['T_ref'], bool(with_refs), sorted(case['offset'].items())))
+    ctx.true('the offset dictionary given by the caller is left as it was', _same(offs, offs0), sig, case,
+             observed=repr(offs), expected=repr(offs0))
+    key = ('offset', desc, route, case['T_ref'], bool(with_refs), sorted(case['offset'].items()))
+    ctx.state(key)
+    ctx.nontrivial(key)
 
 
 def _offset_cases():
     for desc in DESC_MODES:
-        for T_ref in (T0, 300.0, 500.0):
-            for offs in ({'H': -123.4, 'O': -186.9}, dict(HIDDEN), {'C': 12.5}):
-                for wr in (None, [0, 2]):
-                    yield dict(kind='offset', desc=desc, T_ref=T_ref, offset=offs, with_refs=wr)
+        for route in ROUTES:
+            for T_ref in (T0, 300.0, 500):
+                for offs in ({'H': -123.4, 'O': -186.9}, dict(HIDDEN), {'C': 12.5}, {'H': -123, 'O': 7, 'N': 0}, {}):
+                    for wr in (None, [0, 2]):
+                        yield dict(kind='offset', desc=desc, route=route, T_ref=T_ref, offset=offs, with_refs=wr)
+
+
+# ------------------------------------------------------------------ two References objects at once
+PCFG_B = dict(exp='consistent', tref='all300', desc='elements')
+
+
+def _pair_sig(case):
+    return dict(kind='pair', make=case['make'], edit=case['edit'][0])
+
+
+def _run_pair(case, ctx):
+    """A is fitted and measured; B is made (new with other parameters / deep copy of A / to_dict-from_dict of A),
+    edited and refitted; A must report what it reported before, B must satisfy every clause for its own list,
+    and a species moved from A to B reports B's adjustment."""
+    import copy
+    from pmutt.empirical.references import Reference, References
+    sig = _pair_sig(case)
+    a_ids, make, edit = case['a'], case['make'], case['edit']
+    cfgA = dict(exp='table', tref='equal', desc='groups' if (make == 'deepcopy' and len(a_ids) % 2) else 'elements')
+    trefsA = [T0] * len(a_ids)
+    lstA = [_reference(i, t, cfgA['exp'], cfgA['desc']) for i, t in zip(a_ids, trefsA)]
+    lst_before = list(lstA)
+    A = References(references=lstA, descriptor=cfgA['desc'])
+    T = 650.0
+    a0 = _measure_offsets(A, T, cfgA['desc'])
+    tr0 = float(A.T_ref)
+    mover = _species('t', {'H': 3, 'O': 1, 'C': 2}, cfgA['desc'], A, _cheap_model())
+    m0 = mover.get_HoRT(T=T)
+    b_ids = a_ids + [edit[1]] if edit[0] == 'append' else a_ids[:-1]
+    ctx.tag('pair:' + make)
+    if make == 'new':
+        cfgB = dict(PCFG_B)
+        trefsB = [300.0] * len(b_ids)
+        lstB = [_reference(i, t, cfgB['exp'], cfgB['desc']) for i, t in zip(b_ids, trefsB)]
+        # every option spelled out, offset=None and a T_ref that the fit has to replace
+        B = References(offset=None, references=lstB, descriptor='elements', T_ref=777.0)
+    else:
+        cfgB = dict(cfgA)
+        trefsB = [T0] * len(b_ids)
+        if make == 'deepcopy':
+            B = copy.deepcopy(A)
+        else:
+            B = References.from_dict(A.to_dict())
+        ctx.true('a copy is a References object with its own list of Reference objects',
+                 isinstance(B, References) and B.references is not A.references
+                 and all(isinstance(r, Reference) for r in B.references)
+                 and not any(rb is ra for rb, ra in zip(B.references, A.references)), sig, case)
+        ctx.close('a copy reports the offsets and T_ref of the original', _measure_offsets(B, T, cfgB['desc'])
+                  + [float(B.T_ref)], a0 + [tr0], sig, case, rtol=0.0, atol=0.0)
+        if edit[0] == 'append':
+            B.append(_reference(edit[1], T0, cfgB['exp'], cfgB['desc']))
+        else:
+            B.pop()
+        B.fit_HoRT_offset()
+        ctx.trans(2)
+    ctx.trace(2)
+    ctx.evals(30)
+    ok = ctx.close('fitted T_ref is the mean reference temperature', float(B.T_ref), float(np.mean(trefsB)), sig,
+                   case, rtol=1e-12)
+    # A after B was made, edited and refitted
+    ok &= ctx.close('making, editing and refitting another References object leaves the first one as it was',
+                    _measure_offsets(A, T, cfgA['desc']) + [float(A.T_ref), mover.get_HoRT(T=T)], a0 + [tr0, m0],
+                    sig, case, rtol=0.0, atol=0.0)
+    ok &= ctx.true('the list of references given to the constructor still holds the same objects',
+                   len(lstA) == len(lst_before) and all(x is y for x, y in zip(lstA, lst_before))
+                   and len(A) == len(a_ids), sig, case)
+    if ok:
+        ok &= check_refs(A, a_ids, trefsA, cfgA, ctx, dict(sig, obj='A'), case, full=False)
+        ok &= check_refs(B, b_ids, trefsB, cfgB, ctx, dict(sig, obj='B'), case, full=False)
+    if ok and cfgA['desc'] == cfgB['desc']:
+        # the same species object handed from A to B: the answer is the one for its new References object
+        fresh = _species('t', {'H': 3, 'O': 1, 'C': 2}, cfgB['desc'], B, _cheap_model())
+        mover.references = B
+        ctx.close('a species whose references attribute is replaced reports the new adjustment',
+                  [mover.get_HoRT(T=T), mover.get_GoRT(T=T)], [fresh.get_HoRT(T=T), fresh.get_GoRT(T=T)], sig, case,
+                  rtol=0.0, atol=0.0)
 
 
 # ------------------------------------------------------------------ histories (Shape A)
@@ -428,17 +689,31 @@ def _hist_init(init):
     lst = [_reference(i, _hT(i, init), 'table', 'elements') for i in init['refs']]
     if init['given']:
         refs = References(offset={'H': 1.0, 'O': -2.0}, references=lst)
-        return refs, list(init['refs']), None
-    return References(references=lst), list(init['refs']), list(init['refs'])
+        fitted = None
+    else:
+        refs = References(references=lst)
+        fitted = list(init['refs'])
+    if init.get('attach'):
+        # the reference species themselves carry the References object they are part of
+        for ref in lst:
+            ref.model.references = refs
+    return refs, list(init['refs']), fitted
+
+
+def _href(i, init, refs):
+    ref = _reference(i, _hT(i, init), 'table', 'elements')
+    if init.get('attach'):
+        ref.model.references = refs
+    return ref
 
 
 def _apply(refs, cur, fitted, op, init):
     kind = op[0]
     if kind == 'append':
-        refs.append(_reference(op[1], _hT(op[1], init), 'table', 'elements'))
+        refs.append(_href(op[1], init, refs))
         return cur + [op[1]], fitted
     if kind == 'extend':
-        refs.extend([_reference(i, _hT(i, init), 'table', 'elements') for i in op[1]])
+        refs.extend([_href(i, init, refs) for i in op[1]])
         return cur + list(op[1]), fitted
     if kind == 'pop':
         refs.pop()
@@ -459,17 +734,20 @@ def _hist_ops(cur, pool):
     return ops
 
 
-def _measure_offsets(refs, T):
+def _measure_offsets(refs, T, desc='elements'):
     cheap = _cheap_model()
-    sp0 = _species('t', {'H': 1}, 'elements', None, cheap)
-    return [_delta(_species('t', {e: 1}, 'elements', refs, cheap), sp0, 'get_HoRT', T) for e in ELEMS]
+    sp0 = _species('t', {'H': 1}, desc, None, cheap)
+    return [_delta(_species('t', {e: 1}, desc, refs, cheap), sp0, 'get_HoRT', T) for e in ELEMS]
 
 
 def _hist_sig(case):
     ops = case['ops']
     last = ops[-1][0] if ops else 'construct'
-    return dict(kind='history', last=last, given=bool(case['init']['given']),
-                tref=case['init'].get('tref', 'equal'))
+    sig = dict(kind='history', last=last, given=bool(case['init']['given']),
+               tref=case['init'].get('tref', 'equal'))
+    if case['init'].get('attach'):
+        sig['attached'] = True
+    return sig
 
 
 def _run_hist(case, ctx, res=None):
@@ -480,6 +758,9 @@ def _run_hist(case, ctx, res=None):
     early = _species('early', {'H': 2, 'O': 1, 'C': 1}, 'elements', refs, _cheap_model())
     if case['init']['given']:
         ctx.tag('hist:init-offset-given')
+    attach = bool(case['init'].get('attach'))
+    if attach:
+        ctx.tag('hist:attached')
     for op in case['ops']:
         cur, fitted = _apply(refs, cur, fitted, op, case['init'])
         ctx.tag('hist:' + op[0])
@@ -507,6 +788,14 @@ def _run_hist(case, ctx, res=None):
     ok &= ctx.close('a species created before the history sees the refitted offsets',
                     [early.get_HoRT(T=T), early.get_GoRT(T=T)], [late.get_HoRT(T=T), late.get_GoRT(T=T)], sig,
                     case, rtol=1e-12)
+    if attach and cur:
+        # the reference species that carry the References object report what a fresh species reports
+        held = [r.model.get_HoRT(T=r.T_ref) for r in refs]
+        fresh = [_species(MENU[i][0], MENU[i][1], 'elements', refs, _model(i)).get_HoRT(T=_hT(i, case['init']))
+                 for i in cur]
+        ctx.evals(2 * len(cur))
+        ok &= ctx.close('reference species carrying the References object report the adjusted enthalpy of a fresh '
+                        'species', held, fresh, sig, case, rtol=1e-12)
     if ok:
         check_refs(refs, cur, trefs, HCFG, ctx, sig, case, full=False, fitted_ids=fitted)
 
@@ -518,6 +807,8 @@ def check_case(case, ctx):
         _run_offset(case, ctx)
     elif case['kind'] == 'hist':
         _run_hist(case, ctx)
+    elif case['kind'] == 'pair':
+        _run_pair(case, ctx)
     else:
         raise ValueError(case['kind'])
 
@@ -530,7 +821,7 @@ def run_shard(shard, ctx):
                 continue
             sig = _fit_sig(case)
             ctx.run_case(_run_fit, case, sig)
-            key = ('fit', tuple(case['refs']), case['exp'], case['tref'], case['desc'])
+            key = ('fit', tuple(case['refs']), case['exp'], case['tref'], case['desc'], case['route'])
             ctx.state(key)
             if sig['rank'] != 'square-full' or {k: case[k] for k in DEFAULT} != DEFAULT:
                 ctx.nontrivial(key)
@@ -539,18 +830,31 @@ def run_shard(shard, ctx):
         return
     if kind == 'offset':
         for case in _offset_cases():
-            ctx.run_case(_run_offset, case, dict(kind='offset-given', desc=case['desc'],
-                                                 with_refs=bool(case['with_refs'])))
+            ctx.run_case(_run_offset, case, _offset_sig(case))
+        return
+    if kind == 'pair':
+        for n, case in enumerate(_pair_cases(ctx.tier)):
+            if n % shard['nparts'] != shard['part']:
+                continue
+            ctx.run_case(_run_pair, case, _pair_sig(case))
+            key = ('pair', tuple(case['a']), case['make'], tuple(case['edit']))
+            ctx.state(key)
+            ctx.nontrivial(key)
+            if n % 97 == shard['part']:
+                ctx.sample(case, limit=1)
         return
     # histories: BFS, de-duplicated on (current list, list last fitted)
     init = dict(refs=shard['init'], given=shard['given'], tref=shard['tref'])
+    if shard.get('attach'):
+        init['attach'] = True
     pool, depth = shard['pool'], shard['depth']
     root = dict(kind='hist', init=init, ops=[])
     res = {}
     if not ctx.run_case(lambda c_, x_: _run_hist(c_, x_, res), root, _hist_sig(root)):
         return
     seen = {res['key']}
-    ctx.state(('hist', init['given'], init['tref']) + res['key'])
+    hkey = ('hist', init['given'], init['tref'], bool(init.get('attach')))
+    ctx.state(hkey + res['key'])
     frontier = [([], res['key'][0])]
     for d in range(depth):
         nxt = []
@@ -564,10 +868,10 @@ def run_shard(shard, ctx):
                 if key in seen:
                     continue
                 seen.add(key)
-                ctx.state(('hist', init['given'], init['tref']) + key)
+                ctx.state(hkey + key)
                 kinds = {o[0] for o in case['ops']}
                 if 'refit' in kinds and kinds & {'append', 'extend'}:
-                    ctx.nontrivial(('hist', init['given'], init['tref']) + key)
+                    ctx.nontrivial(hkey + key)
                 nxt.append((hist + [op], key[0]))
                 if len(hist) + 1 == depth:
                     ctx.sample(case, limit=1)
@@ -578,8 +882,12 @@ LEVEL_TEXT = ('Exhaustive enumeration of every subset of 1-8 reference species o
               'descriptors (square, over-determined, under-determined and rank-deficient composition matrices), '
               'crossed with experimental-data, reference-temperature and descriptor-dictionary modes up to the '
               'stated deviation level, each fitted by the real References class and evaluated through real '
-              'StatMech species; plus explicit-state BFS over append/extend/pop/refit histories compared with a '
-              'fit from scratch. All clauses evaluated in every case.')
+              'StatMech species with the temperature supplied directly, through the per-species keyword '
+              'dictionary, through both, next to other species\' dictionaries, and integer-typed; plus '
+              'explicit-state BFS over append/extend/pop/refit histories (reference species with and without the '
+              'References object attached) compared with a fit from scratch; plus pairs of References objects '
+              '(new / deepcopy / to_dict-from_dict, edited and refitted) alive at once. All clauses evaluated in '
+              'every case.')
 LEVEL_NOTE = ('Menu of 14 species / 5 descriptors; quick: all subsets of size 1-4 plus size 5-8 of a 9-species '
               'sub-menu, history depth 4; thorough: all 12910 subsets, depth 5. With unequal reference '
               'temperatures only the unconditional clauses are verdicts. Scalar temperatures only.')
